@@ -345,7 +345,17 @@ class Chunk:
 
         if len(set(run_ids)) == 1:
             run_id = run_ids[0]
-            superrun = None
+            if all(set(c.superrun) == {run_id} for c in chunks):
+                # Keep the recorded span of the run: a fragment split off a chunk of
+                # several runs can start in the gap before its run
+                superrun = {
+                    run_id: {
+                        "start": min(c.superrun[run_id]["start"] for c in chunks),
+                        "end": max(c.superrun[run_id]["end"] for c in chunks),
+                    }
+                }
+            else:
+                superrun = None
         else:
             run_id = None
             superrun = _merge_superrun_in_chunk(chunks)
